@@ -292,6 +292,12 @@ pub fn check(prop_id: &str, quick: bool) -> i32 {
     // 5. evidence
     let wall = started.elapsed().as_secs_f64();
     let distinct = total.nontrivial.len() as u64 + total.nontrivial_counted;
+    if total.samples.is_empty() {
+        // a run that stopped at its first case: show the failing cases instead
+        for (v, _) in real.iter().take(3) {
+            total.samples.push(json!({"violating_case": v.case, "message": v.message}));
+        }
+    }
     write_evidence(&meta, tier, seed, &total, distinct, regress_n, real.len(), &infra, wall);
 
     let _ = std::fs::remove_dir_all(&work);
@@ -307,9 +313,15 @@ pub fn check(prop_id: &str, quick: bool) -> i32 {
         wall
     );
     if !real.is_empty() {
+        // one line per distinct signature (workers often find the same thing), at most 5
+        let mut seen: Vec<String> = vec![];
         for (v, p) in &real {
+            if seen.contains(&v.signature) || seen.len() >= 5 {
+                continue;
+            }
+            seen.push(v.signature.clone());
             println!("VIOLATION property={prop_id} replay={}", p.display());
-            println!("  {}", v.message.lines().take(12).collect::<Vec<_>>().join("\n  "));
+            println!("  [{}] {}", v.signature, crate::props::common::strip_ansi(&v.message).lines().take(14).collect::<Vec<_>>().join("\n  "));
         }
         return 1;
     }
